@@ -72,6 +72,11 @@ class Link:
         self.policy = None      # optional: callable(frame data) -> attempt, instead of the script
         self.raise_at = None    # optional: raise LinkError at the n-th send_packet counted from nsend = 0
         self.nsend = 0
+        self.flood = None       # stray packets handed out, one per listen that finds the queue empty (cycled)
+        self.flood_left = 0
+        self.listens = 0        # receive_packet(wait > 0) calls since the last NEW frame was transmitted
+        self.last_tx = None
+        self.LISTEN_BUDGET = 200
         self.deferred = False   # reference-keeping link: see send_packet
         self.slot = None
         self.offered = []
@@ -113,6 +118,10 @@ class Link:
     def _transmit(self, pk):
         hdr = pk.header
         d = bytes(pk.data)
+        if (hdr, d) != self.last_tx:
+            self.listens = 0
+            self.last_tx = (hdr, d)
+            self.flood, self.flood_left = None, 0      # strays belong to the command they disturb
         if hdr == 0xFF and len(d) >= 2 and d[1] == 0x18:
             self.consec_writes += 1
             if self.consec_writes > 64:
@@ -124,6 +133,9 @@ class Link:
             deliv = bool(a['deliv'])
             self.q.extend(list(p) for p in a.get('intime', []))
             self.pending_late = [list(p) for p in a.get('late', [])]
+            if a.get('flood'):
+                self.flood = [list(p) for p in a['flood']['pkts']]
+                self.flood_left = int(a['flood']['k'])
         else:
             deliv = True
             self.consec_writes = 0
@@ -137,7 +149,15 @@ class Link:
         self.recv_calls.append(wait)
         if len(self.recv_calls) > 4 * self.MAX_FRAMES:
             raise HarnessAbort('receive loop does not end')
+        if wait and wait > 0:
+            self.listens += 1
+            if self.listens > self.LISTEN_BUDGET:
+                raise HarnessAbort('listen budget exceeded: %d receive_packet calls without a new command' % self.listens)
         r = self.q.pop(0) if self.q else None
+        if r is None and wait and wait > 0 and self.flood and self.flood_left > 0:
+            self.flood_left -= 1
+            r = self.flood[0]
+            self.flood = self.flood[1:] + self.flood[:1]
         if self.pending_late:
             self.q.extend(self.pending_late)
             self.pending_late = []
